@@ -651,6 +651,23 @@ def gen_adam7(src_dir, report):
         report['subbyte_pixels'] = 'regenerated'
     except Untranslatable as ex:
         report['subbyte_pixels'] = 'untranslatable: %s' % ex; return None
+    try:
+        body = extract_fn(src, 'expand_pass')
+        b1 = re.sub(r'\s+', ' ', body)
+        if not re.search(r'let rem = 8 - pos % 8 - bits_pp;', b1): raise Untranslatable("expand_pass rem")
+        if not re.search(r'for \(pos, px\) in bit_indices\.zip\(subbyte_pixels\(interlaced_row, bits_pp\)\)', b1): raise Untranslatable("expand_pass loop")
+        if re.search(r'img\[pos / 8\] = \(img\[pos / 8\] & !\(mask << rem as u8\)\) \| \(px << rem as u8\);', b1) and \
+           re.search(r'let mask = \(\(1u16 << bits_pp\) - 1\) as u8;', b1):
+            out += "Definition subbyte_store (old px bits rem : Z) : Z :=\n  let mask := (Z.shiftl 1 bits - 1) mod 256 in\n  Z.lor (Z.land old (255 - (Z.shiftl mask rem) mod 256)) ((Z.shiftl px rem) mod 256).\n"
+        elif re.search(r'img\[pos / 8\] \|= px << rem as u8;', b1):
+            out += "Definition subbyte_store (old px bits rem : Z) : Z :=\n  Z.lor old ((Z.shiftl px rem) mod 256).\n"
+        else:
+            raise Untranslatable("expand_pass sub-byte store expression")
+        if not re.search(r'for \(bitpos, px\) in bit_indices\.zip\(interlaced_row\.chunks\(bytes_pp\)\) \{ for \(offset, val\) in px\.iter\(\)\.enumerate\(\) \{ img\[bitpos / 8 \+ offset\] = \*val; \} \}', b1):
+            raise Untranslatable("expand_pass byte store loop")
+        report['expand_pass.store'] = 'regenerated'
+    except Untranslatable as ex:
+        report['expand_pass.store'] = 'untranslatable: %s' % ex; return None
     return out
 
 def main():
